@@ -1,3 +1,4 @@
+import MpsProps.Anchors.C15
 import MpsProofs.Codec
 import MpsGen.Codec
 import Mps.GuardTables
